@@ -8,6 +8,8 @@ import Mathlib.Tactic.Ring
 namespace AdaptaVerif.Lemmas.Apsp
 open AdaptaVerif.Model.ShortestPaths AdaptaVerif.Spec.Apsp
 
+theorem gtD_some {b c : Rat} : gtD (some b) c = true ↔ c < b := by simp [gtD]
+
 theorem HasEdge.symm {g : Graph} {u v : Nat} {w : Rat} (h : HasEdge g u v w) : HasEdge g v u w :=
   Or.symm h
 
